@@ -583,6 +583,9 @@ func scenTerm(out *scenOut, r *rng, thorough bool) {
 	for _, cause := range []string{"quitmsg", "interrupt", "quitapi"} {
 		endWithManyBlockedCommands(out, cause, 400)
 	}
+	for _, cause := range []string{"quitmsg", "kill", "ctx"} {
+		endWithBlockedSequence(out, cause)
+	}
 	for _, cause := range []string{"quitmsg", "quitapi", "interrupt", "kill", "ctx", "panic-update", "readerr"} {
 		noRendererRuns(out, cause)
 	}
@@ -1653,5 +1656,50 @@ func sendLongBeforeRun(out *scenOut) {
 	case <-done:
 	case <-time.After(3 * time.Second):
 		go p.Kill()
+	}
+}
+
+// endWithBlockedSequence: a Sequence is in flight whose current element never returns (and one whose
+// current element is a Batch with a command that never returns) when the program is asked to end:
+// Run returns - nothing of a sequence is waited for at shutdown (C04: "commands that never return").
+func endWithBlockedSequence(out *scenOut, cause string) {
+	ctl := newRecCtl()
+	never := make(chan struct{})
+	defer close(never)
+	var started int32
+	block := func() tea.Msg { atomic.AddInt32(&started, 1); <-never; return nil }
+	quick := func() tea.Msg { return cmdMsg{"sq"} }
+	ctl.onUpdate = func(m tea.Msg, v int) tea.Cmd {
+		if u, ok := m.(userMsg); ok && u.Sender == 9 {
+			return tea.Batch(tea.Sequence(quick, block, quick), tea.Sequence(quick, tea.Batch(quick, block), quick))
+		}
+		return nil
+	}
+	parent, cancel := context.WithCancel(context.Background())
+	defer cancel()
+	run := startProgram(ctl, nil, tea.WithInput(nil), tea.WithoutSignalHandler(), tea.WithContext(parent))
+	desc := "two sequences in flight, one at an element that never returns, one at a Batch with a command that never returns; then " + cause
+	waitFor(2*time.Second, func() bool { return ctl.log.has("view-exit", "") })
+	run.p.Send(userMsg{9, 0})
+	waitFor(3*time.Second, func() bool { return atomic.LoadInt32(&started) >= 2 })
+	time.Sleep(20 * time.Millisecond)
+	want := "killed"
+	switch cause {
+	case "quitmsg":
+		go run.p.Send(tea.QuitMsg{})
+		want = "nil"
+	case "kill":
+		go run.p.Kill()
+	case "ctx":
+		cancel()
+	}
+	out.record("end-with-blocked-sequence/"+cause, desc)
+	if !run.wait(4 * time.Second) {
+		out.fail(finding{Property: "C04", Class: "new", What: "Run does not return while a sequence is at an element that never returns", Input: desc, Observed: goroutineDump()})
+		go run.p.Kill()
+		return
+	}
+	if got := errClass(run.err); got != want {
+		out.fail(finding{Property: "C04", Class: "new", What: "wrong Run result", Input: desc, Expected: want, Observed: got})
 	}
 }
